@@ -20,7 +20,12 @@ type State struct {
 	epoch int
 	armed map[*ssa.Defer]string
 	tagLo string // every id in [tagLo, next) carries no tag of a struct type the contracts mention (idtags.go); "" = unknown
+	// merges: heap versions introduced at control-flow joins of this function, with the incoming (reach, version)
+	// pairs they select from (shared by all states of one function; used to split frame goals per branch)
+	merges map[string][]mergeBranch
 }
+
+type mergeBranch struct{ reach, heap string }
 
 func (s *State) Heap(name string) string {
 	if v, ok := s.heaps[name]; ok {
@@ -33,7 +38,7 @@ func (s *State) Heap(name string) string {
 func (s *State) Next() string { return s.next }
 
 func (s *State) clone() *State {
-	n := &State{g: s.g, reach: s.reach, heaps: map[string]string{}, next: s.next, epoch: s.epoch, armed: map[*ssa.Defer]string{}, tagLo: s.tagLo}
+	n := &State{g: s.g, reach: s.reach, heaps: map[string]string{}, next: s.next, epoch: s.epoch, armed: map[*ssa.Defer]string{}, tagLo: s.tagLo, merges: s.merges}
 	for k, v := range s.heaps {
 		n.heaps[k] = v
 	}
@@ -343,7 +348,7 @@ func (c *FnCtx) mergeStates(sts []*State) *State {
 	if len(sts) == 1 {
 		return sts[0].clone()
 	}
-	out := &State{g: c.g, heaps: map[string]string{}, armed: map[*ssa.Defer]string{}, epoch: sts[0].epoch}
+	out := &State{g: c.g, heaps: map[string]string{}, armed: map[*ssa.Defer]string{}, epoch: sts[0].epoch, merges: sts[0].merges}
 	mixed := false
 	var rs []string
 	for _, s := range sts {
@@ -395,6 +400,13 @@ func (c *FnCtx) mergeStates(sts []*State) *State {
 			t = fmt.Sprintf("(ite %s %s %s)", sts[i].reach, sts[i].Heap(k), t)
 		}
 		out.heaps[k] = c.defineHeap(k, t)
+		if out.merges != nil {
+			var bs []mergeBranch
+			for _, s := range sts {
+				bs = append(bs, mergeBranch{s.reach, s.Heap(k)})
+			}
+			out.merges[out.heaps[k]] = bs
+		}
 	}
 	// next
 	same := true
